@@ -92,6 +92,7 @@ func NewMuxer(ctx context.Context, w io.Writer, opts ...func(*Muxer)) *Muxer {
 		pmtCC: newWrappingCounter(0b1111),
 
 		esContexts: map[uint32]*esContext{},
+		nextPID:    startPID,
 	}
 
 	m.bufWriter = astikit.NewBitsWriter(astikit.BitsWriterOptions{Writer: &m.buf})
@@ -120,6 +121,9 @@ func (m *Muxer) AddElementaryStream(es PMTElementaryStream) error {
 			}
 		}
 	} else {
+		for _, ok := m.esContexts[uint32(m.nextPID)]; ok || m.nextPID == pmtStartPID; _, ok = m.esContexts[uint32(m.nextPID)] {
+			m.nextPID++
+		}
 		es.ElementaryPID = m.nextPID
 		m.nextPID++
 	}
